@@ -59,6 +59,9 @@ class Report(object):
         self.transitions = 0
         self.traces_validated = 0
         self._known = load_known_findings()
+        import shutil
+
+        shutil.rmtree(os.path.join(VERIF, "replays", prop), ignore_errors=True)
 
     # ------------------------------------------------------------------
     def known_entry(self, finding_id):
@@ -131,6 +134,10 @@ class Report(object):
         }
         os.makedirs(os.path.join(VERIF, "evidence"), exist_ok=True)
         path = os.path.join(VERIF, "evidence", self.prop + ".json")
+        if os.environ.get("VERIF_NO_EVIDENCE"):
+            # runs against seeded changes must not overwrite committed evidence
+            path = os.path.join(VERIF, "build", self.prop + ".seedrun-evidence.json")
+            os.makedirs(os.path.dirname(path), exist_ok=True)
         with open(path + ".tmp", "w") as fp:
             json.dump(evidence, fp, indent=1, default=repr)
         os.replace(path + ".tmp", path)
